@@ -896,6 +896,17 @@ def r07_11_parse_digit_capacity(ctx: Ctx) -> RuleResult:
         d, v = M.fold(de, fn.cls, fn.mod), M.fold(ve, fn.cls, fn.mod)
         if isinstance(d, int) and isinstance(v, int):
             return [(d, v)]
+        if isinstance(de, ast.Name) and isinstance(v, int):
+            # a local holding the repeat count of the pattern character: every count the cursor accepts (1 .. K) is a binding
+            g = fn
+            while g is not None:
+                for n in own_nodes(g.node):
+                    if isinstance(n, (ast.Assign, ast.AnnAssign)) and getattr(n, "value", None) is not None and isinstance(n.value, ast.Call) and isinstance(n.value.func, ast.Attribute) \
+                            and n.value.func.attr == "get_repeat_count" and n.value.args and any(isinstance(t, ast.Name) and t.id == de.id for t in ([n.target] if isinstance(n, ast.AnnAssign) else n.targets)):
+                        k = M.fold(n.value.args[0], g.cls, g.mod)
+                        if isinstance(k, int) and k >= 1:
+                            return [(i, v) for i in range(1, k + 1)]
+                g = g.parent
         g = fn
         while g is not None:
             ps = [p.arg for p in g.params]
@@ -1112,4 +1123,99 @@ def r07_16_annual_date_day_check_matches_the_type(ctx: Ctx) -> RuleResult:
         rr.ok({"bound": next(unparse(t.test)[:80] for t in tests if "get_days_in_month" in unparse(t.test))})
     else:
         rr.fail(f.qual, f"the day is bounded by `{unparse(tests[0].test)[:80] if tests else '?'}`, not by the ISO month length in the leap year 2000: 29 February formats and does not parse back", ctx.loc(f, tests[0]) if tests else ctx.loc(f))
+    return rr
+
+
+SIGNED_MAGNITUDE_PARSERS = ("_duration_pattern_parser.py", "_offset_pattern_parser.py")
+
+
+@rule("C07")
+def r07_17_sibling_getters_agree(ctx: Ctx) -> RuleResult:
+    """The date and time handler factories (_DatePatternHelper / _TimePatternHelper `_create_*`) are shared by the pattern parsers
+    of LocalDate, LocalDateTime, AnnualDate, LocalTime...; each parser hands in its own getter for the same field.  The parse side
+    (the shared bucket checks) and the name tables are common, so the getters of one slot must read the SAME field the same way:
+    a day-of-week getter that renumbers Sunday as 0 in one parser indexes the name table differently from its sibling.  For every
+    (factory, parameter) slot filled by two or more parsers the getters' returned expressions are compared after renaming the
+    receiver."""
+    from ..kit import bind_args
+
+    rr = RuleResult("R07.17", "getters handed to one slot of a shared date / time handler factory read the same field the same way in every parser (sibling agreement)", min_instances=4)
+    M = ctx.M
+    helpers = [c for c in M.all_classes() if c.name in ("_DatePatternHelper", "_TimePatternHelper")]
+    if len(helpers) != 2:
+        raise AnalysisError("_DatePatternHelper / _TimePatternHelper not found")
+    factories = {f.name: f for c in helpers for f in c.all_defs if not isinstance(f.node, ast.Lambda) and f.name.startswith("_create")}
+    slots: dict[tuple[str, str], list] = {}
+
+    def getter_expr(e: ast.expr, cl, mod):
+        """normalised returned expression of a getter given as a lambda or as the name of a one-return function"""
+        if isinstance(e, ast.Lambda) and len(e.args.args) == 1:
+            p, body = e.args.args[0].arg, e.body
+        elif isinstance(e, (ast.Name, ast.Attribute)):
+            nm = unparse(e).split(".")[-1]
+            cands = [g for g in M.func_of_node.values() if not isinstance(g.node, ast.Lambda) and g.mod is mod and (g.name == nm or (g.cls is not None and mangle(g.cls.name, g.name) == mangle(g.cls.name, nm)))]
+            if len(cands) != 1:
+                return None
+            g = cands[0]
+            rets = [n for n in own_nodes(g.node) if isinstance(n, ast.Return) and n.value is not None]
+            vp = [p for p in g.params if p.arg != g.self_name]
+            if len(rets) != 1 or len(vp) != 1 or len([s for s in g.node.body if not (isinstance(s, ast.Expr) and isinstance(s.value, ast.Constant))]) != 1:
+                return None
+            p, body = vp[0].arg, rets[0].value
+        else:
+            return None
+        import copy
+
+        b2 = copy.deepcopy(body)
+        for x in ast.walk(b2):
+            if isinstance(x, ast.Name) and x.id == p:
+                x.id = "_"
+        return unparse(b2)
+
+    for h in sorted(set(M.func_of_node.values()), key=lambda x: x.qual):
+        if isinstance(h.node, ast.Lambda) or "/text/" not in h.mod.rel:
+            continue
+        for c in own_nodes(h.node):
+            if isinstance(c, ast.Call):
+                nm = unparse(c.func).split(".")[-1].split("[")[0]
+                if nm in factories:
+                    b = bind_args(c, factories[nm])
+                    for pn, a in b.items():
+                        if "getter" in pn:
+                            slots.setdefault((nm, pn), []).append((h, c, a, getter_expr(a, h.cls, h.mod)))
+    for cl in M.all_classes():
+        if "/text/" not in cl.mod.rel:
+            continue
+        for st in cl.node.body:
+            if isinstance(st, (ast.FunctionDef, ast.AsyncFunctionDef, ast.ClassDef)):
+                continue
+            for c in ast.walk(st):
+                if isinstance(c, ast.Call):
+                    nm = unparse(c.func).split(".")[-1].split("[")[0]
+                    if nm in factories:
+                        b = bind_args(c, factories[nm])
+                        for pn, a in b.items():
+                            if "getter" in pn:
+                                slots.setdefault((nm, pn), []).append((cl, c, a, getter_expr(a, cl, cl.mod)))
+    for (fn, pn), uses in sorted(slots.items()):
+        # signed magnitudes (Duration, Offset) are written from the absolute value: their getters differ from the calendar / clock types by design
+        uses = [u for u in uses if u[0].mod.rel.rsplit("/", 1)[-1] not in SIGNED_MAGNITUDE_PARSERS]
+        if len(uses) < 2:
+            continue
+        rr.inst()
+        exprs = {}
+        for owner, c, a, ex in uses:
+            if ex is not None:
+                exprs.setdefault(ex, []).append((owner, c))
+        if len(exprs) <= 1:
+            rr.ok({"slot": f"{fn}({pn})", "parsers": len(uses), "reads": next(iter(exprs), "not resolved")})
+            continue
+        major = max(exprs.items(), key=lambda kv: len(kv[1]))[0]
+        for ex, where in sorted(exprs.items()):
+            if ex == major:
+                continue
+            owner, c = where[0]
+            q = getattr(owner, "qual", getattr(owner, "name", "?"))
+            loc = ctx.loc(owner, c) if hasattr(owner, "params") else f"{owner.mod.rel}:{c.lineno}"
+            rr.fail(q, f"slot `{pn}` of {fn}: this parser's getter returns `{ex}`, its sibling(s) `{major}`; the shared handler indexes the same tables / writes the same digits for both", loc)
     return rr
